@@ -188,7 +188,10 @@ pub fn gen_meta(r: &mut Rng, kind: MetaKind) -> MetaVal {
 }
 
 fn gen_bytes(r: &mut Rng, big: bool) -> Vec<u8> {
-    let n = if big && r.chance(1, 3) {
+    let n = if big && r.chance(1, 12) {
+        // longer than the usual I/O buffer sizes (8 KiB, 64 KiB)
+        *r.pick(&[8_193usize, 20_000, 66_000])
+    } else if big && r.chance(1, 3) {
         200 + r.usize(5000)
     } else {
         r.usize(14)
